@@ -38,4 +38,22 @@ void ut_free(void *ptr) { free(ptr); }
 void ut_fatal(void) { abort(); }
 void ut_mem_exhausted(void) { abort(); }
 
+
+/* inet_ntop/inet_pton: TRUSTED, nondeterministic within the bounds of their buffers (textual IP syntax is glibc's) */
+#include <arpa/inet.h>
+const char *inet_ntop(int af, const void *src, char *dst, socklen_t size)
+{
+    if (nondet_bool()) { xv_errno = nondet_bool() ? ENOSPC : EAFNOSUPPORT; return NULL; }
+    size_t n = nondet_size_t();
+    __CPROVER_assume(size >= 1 && n < size && n < 46);
+    if (n > 0) __CPROVER_havoc_slice(dst, n);
+    dst[n] = 0;
+    return dst;
+}
+int inet_pton(int af, const char *src, void *dst)
+{
+    if (nondet_bool()) return 0;
+    __CPROVER_havoc_slice(dst, af == AF_INET6 ? 16 : 4);
+    return 1;
+}
 #endif
